@@ -57,8 +57,8 @@ type c15Probe struct {
 	f func(ctx pipeline.ActionContext) error
 }
 
-func (p *c15Probe) String() string                                    { return "c15probe" }
-func (p *c15Probe) Do(ctx pipeline.ActionContext) error               { return p.f(ctx) }
+func (p *c15Probe) String() string                                   { return "c15probe" }
+func (p *c15Probe) Do(ctx pipeline.ActionContext) error              { return p.f(ctx) }
 func (p *c15Probe) CloneWith(pipeline.ActionContext) pipeline.Action { return p }
 
 type c15Listener struct{ logs []string }
